@@ -138,6 +138,31 @@ func negotiateCase(domain, ws string, uni bool, tag string) {
 	r.Nontrivial("neg|" + tag)
 }
 
+// negotiateStructureOnly: OEM mode with non-ASCII names. What the OEM bytes of such a name are
+// depends on a code page and is not judged; that every descriptor designates bytes in bounds,
+// past the header and not overlapping another field is judged for any input.
+func negotiateStructureOnly(domain, ws string, tag string) {
+	const e = "ntlm.CreateNegotiateMessage"
+	cs := map[string]any{"domain": domain, "workstation": ws, "unicode": false}
+	var msg []byte
+	var err error
+	p, v, st := mon.Guard(func() { msg, err = ntlm.CreateNegotiateMessage(domain, ws, false) })
+	r.Eval(1)
+	if p {
+		r.Violation(e+":panic:"+mon.PanicClass(v), fmt.Sprintf("panic %v at %s", v, mon.TopLibFrame(st)), cs)
+		return
+	}
+	if err != nil {
+		return // refusing a name it cannot express in OEM is not judged
+	}
+	cs["message"] = hxCase(msg)
+	_, ps := readMessage(msg, 1)
+	for _, q := range ps {
+		r.Violation(e+":oem-nonascii:"+q.Key(), q.Detail, cs)
+	}
+	r.Nontrivial("neg-struct|" + tag)
+}
+
 func checkNegotiateBytes(e string, msg []byte, domain, ws string, uni bool, cs map[string]any) {
 	m, ps := readMessage(msg, 1)
 	for _, q := range ps {
@@ -174,6 +199,14 @@ func negotiateAll() {
 		for j, w := range append(fixedU, "", "WS") {
 			negotiateCase(d, w, true, fmt.Sprintf("fxu|%d|%d", i, j))
 			negotiateCase(w, d, true, fmt.Sprintf("fxu2|%d|%d", i, j))
+		}
+	}
+	// OEM mode, names with letters whose case mappings change the UTF-8 length (structure only)
+	tricky := []string{"ı", "ſ", "ɐ", "ß", "ŉ", "ǰ", "ΐ", "İ", "K", "dıgıtal", "corp.ſub", "ɐɐɐɐ", "straße", "Ⱥ", "ⱥ", "é", "Домен"}
+	for i, d := range tricky {
+		for j, w := range append([]string{"", "WS", "workstation"}, tricky[:6]...) {
+			negotiateStructureOnly(d, w, fmt.Sprintf("%d|%d", i, j))
+			negotiateStructureOnly(w, d, fmt.Sprintf("r%d|%d", i, j))
 		}
 	}
 	// 16-bit descriptor boundary: the longest names a descriptor can designate
